@@ -6,12 +6,13 @@ import ipaddress
 from hypothesis import strategies as st
 
 from ..engine import ok, require
+from .. import wire
 from ..simkit import ADDRS, MCAST, FakeTransport, Sim, hdr, make_sd, sd, service
 
 PID = "C08"
 RULE = (
     "SD: histories of blocks (destination, count, empty-send mode) through ServiceDiscoveryProtocol.send_sd to the "
-    "multicast group (remote=None) and up to 3 unicast peers, counts from {1,2,3,100,65534,65535,65536}+random so that "
+    "multicast group (remote=None) and up to 3 unicast peers, interleaved with SD messages received from those peers (also with reboot evidence), counts from {1,2,3,100,65534,65535,65536}+random so that "
     "destinations wrap at different moments; notification path: SimpleService/SimpleEventgroup with up to 3 subscribed "
     "endpoints and scripts of subscribe/unsubscribe/notify rounds long enough to wrap; every datagram is decoded "
     "independently (session id bytes 10-11, flags byte 16); non-trivial = some destination crosses its wrap while "
@@ -33,7 +34,9 @@ def fixed_cases(tier):
         {"kind": "sd", "blocks": [[1, 65534, 0], [2, 3, 1], [1, 1, 1], [0, 65535, 0], [2, 2, 0], [1, 2, 2], [0, 2, 2], [2, 65531, 0], [2, 3, 2]]},
         {"kind": "sd", "blocks": [[0, 65534, 1], [0, 3, 2], [2, 65533, 0], [2, 1, 1], [2, 4, 1]]},
         {"kind": "sd", "blocks": [[1, 65540, 2]]},
+        {"kind": "sd", "blocks": [[1, 3, 0], ["recv", 0, 0], ["recv", 0, 1], [1, 3, 0], [2, 2, 0], ["recv", 1, 0], ["recv", 1, 1], ["recv", 1, 1], [2, 2, 0], [1, 65530, 0], ["recv", 0, 1], [1, 3, 0]]},
         {"kind": "notify", "nev": 2, "eps": 3, "script": [["sub!", 0], ["unsub!", 0], ["sub", 0], ["rounds", 3], ["sub!", 1], ["unsub", 1], ["sub", 1], ["rounds!", 2], ["unsub", 0], ["sub", 0], ["rounds", 2]]},
+        {"kind": "notify", "nev": 2, "eps": 3, "script": [["sub", 1], ["sub!", 0], ["hop", 1], ["unsub!", 0], ["hop", 1], ["sub!", 0], ["rounds!", 2], ["hop", 2], ["unsub!", 1], ["rounds", 2], ["sub", 1], ["rounds", 2]]},
         {"kind": "notify", "nev": 4, "eps": 3, "script": [["sub", 0], ["rounds", 100], ["sub", 1], ["rounds", 16300], ["unsub", 0], ["sub", 2], ["rounds", 200], ["sub", 0], ["rounds", 3]]},
     ]
     if tier == "thorough":
@@ -48,7 +51,10 @@ def _case(draw):
         nev = draw(st.integers(1, 4))
         script = []
         for _ in range(draw(st.integers(1, 10))):
-            op = draw(st.sampled_from(["sub", "sub", "unsub", "rounds", "rounds", "subset", "sub!", "unsub!", "rounds!"]))
+            op = draw(st.sampled_from(["sub", "sub", "unsub", "rounds", "rounds", "subset", "sub!", "unsub!", "rounds!", "hop", "hop"]))
+            if op == "hop":
+                script.append([op, draw(st.integers(1, 3))])
+                continue
             if op in ("sub", "unsub", "sub!", "unsub!"):
                 script.append([op, draw(st.integers(0, 2))])
             elif op in ("rounds", "rounds!"):
@@ -59,6 +65,9 @@ def _case(draw):
     blocks = []
     budget = 140000
     for _ in range(draw(st.integers(1, 12))):
+        if draw(st.integers(0, 4)) == 0:
+            blocks.append(["recv", draw(st.integers(0, 2)), draw(st.sampled_from([0, 1, 1]))])
+            continue
         c = draw(st.one_of(st.sampled_from([1, 2, 3, 100, 65534, 65535, 65536]), st.integers(1, 300)))
         c = min(c, budget)
         if c <= 0:
@@ -122,7 +131,18 @@ def _run_sd(case):
             if len(tr.sent) > 200:
                 del tr.sent[:]
 
+        rx = {}
         for blk in case["blocks"]:
+            if blk[0] == "recv":
+                # traffic received from a peer - also with reboot evidence - must not disturb the outgoing counters
+                peer = ADDRS[blk[1] % len(ADDRS)]
+                flag, n_ = rx.get(peer, (True, 0))
+                flag, n_ = (True, 1) if blk[2] else (flag, n_ + 1)
+                rx[peer] = (flag, n_)
+                b_ = wire.SDBuilder().add(wire.FIND, 0x7777, 0xFFFF, 0xFF, 3, minor=0xFFFFFFFF)
+                prot.datagram_received(b_.datagram(n_, reboot=flag), peer, False)
+                sim.settle()
+                continue
             d = DESTS[blk[0] % len(DESTS)]
             wd = MCAST if d is None else d
             count, mode = max(0, min(blk[1], 200000)), blk[2]
@@ -202,6 +222,14 @@ def _run_notify(case):
             if lazy:
                 def drain():  # noqa: E306
                     pass
+            if op == "hop":
+                # a few loop iterations without reaching an idle point: the next step lands while notification tasks
+                # are suspended in their address look-up
+                for _ in range(max(1, min(3, arg))):
+                    if sim.busy():
+                        sim.step()
+                drain = _drain
+                continue
             if op == "sub":
                 i = arg % len(EPS)
                 if i in subscribed:
